@@ -444,7 +444,7 @@ func ruleBlobDispatch(c *Check, p *Prog, step *ssa.Function, _ *Graph) {
 // ruleRetrieveHelper (C09-R3).
 func ruleRetrieveHelper(c *Check, p *Prog, rule string) {
 	fn := p.MustFunc(typesF("RetrieveWithHelpers"))
-	g := BuildECFG(p, fn, ExpandOpts{MaxDepth: 0})
+	g := BuildECFG(p, fn, ownPkgOpts(rootPath+"/types", 2))
 	c.NoteGraph(g)
 	consts := enumConsts(p, daPkg, "StatusCode")
 	success := fmt.Sprint(consts["StatusSuccess"])
@@ -464,12 +464,22 @@ func ruleRetrieveHelper(c *Check, p *Prog, rule string) {
 			if d := lv.Field("Data"); len(d) == 1 {
 				dt := d[0]
 				okD := false
-				for _, l := range flattenPhi(dt) {
+				leaves := flattenPhi(dt)
+				if dt.Op == "extract" || dt.Op == "call" {
+					if ls := p.Alternatives(dt, 2); len(ls) > 0 {
+						leaves = ls // the list is built by a helper of the package
+					}
+				}
+				fromGet := strings.Contains(dt.String(), "da.DA).Get(")
+				for _, l := range leaves {
 					if l.IsCall("append") || l.Op == "make" || (l.Op == "call" && l.Name == "append") {
 						okD = true
 					}
+					if strings.Contains(l.String(), "da.DA).Get(") {
+						fromGet = true
+					}
 				}
-				if okD && strings.Contains(dt.String(), "da.DA).Get(") {
+				if okD && fromGet {
 					c.OK(rule, "RetrieveWithHelpers ⟂ Data=appended-chunks", fnName(fn), p.InstrPos(x.In), "Data ← blobs appended chunk by chunk", true)
 				} else {
 					c.Bad(rule, "RetrieveWithHelpers ⟂ Data=appended-chunks", fnName(fn), p.InstrPos(x.In), "the Data of a successful result is not the in-order concatenation of the chunks: "+trunc(dt.String(), 160), nil)
